@@ -169,6 +169,32 @@ def run(tier, seed, open_findings):
                     sfails.append(dict(case=dict(payload=pname, role='schema-of-document-api', cls=api), observed=dict(outcome=outc, secret_opened=bool(_events)), required='refused, nothing fetched'))
         out.append(result('C13.schema_roles', '4 payloads x (main schema, included schema) x 2 classes, and 3 payloads x 4 package-level functions that build the schema from a path, with defuse=always', m, sfails, exhaustive=True, samples=[dict(payload='external', role='included-schema')]))
         # large prolog on a non-seekable stream (the first start tag lies beyond the 64 KiB look-ahead buffer)
+        # a lazy resource reads its source again at every use: what it reads then is defused like what it read first (the source may have changed in between)
+        rf = []; nr = 0
+        for pname in ('internal', 'external', 'parameter-declared-only'):
+            bad_doc = payloads(secret, 10)[pname].replace('<r>', '<r><c>').replace('</r>', '</c></r>')
+            for kind in ('file-object', 'path'):
+                for use in ('iter', 'iter_depth', 'iterfind', 'is_valid'):
+                    nr += 1; _events.clear()
+                    pth = os.path.join(root, f'reopen_{nr}.xml'); open(pth, 'w').write('<r><c>ok</c></r>')
+                    fobj = open(pth, 'r+b') if kind == 'file-object' else None
+                    try:
+                        res = xmlschema.XMLResource(fobj if fobj is not None else pth, lazy=True, defuse='always')
+                        if fobj is not None: fobj.seek(0); fobj.truncate(); fobj.write(bad_doc.encode()); fobj.flush(); fobj.seek(0)
+                        else: open(pth, 'w').write(bad_doc)
+                        if use == 'iter': out_ = [e.text for e in res.iter()]
+                        elif use == 'iter_depth': out_ = [e.text for e in res.iter_depth()]
+                        elif use == 'iterfind': out_ = [e.text for e in res.iterfind('/r/c')]
+                        else: out_ = xmlschema.XMLSchema10(f'<xs:schema {XS}><xs:element name="r"><xs:complexType><xs:sequence><xs:element name="c" maxOccurs="9"/></xs:sequence></xs:complexType></xs:element></xs:schema>').is_valid(res)
+                        outc = f'processed: {out_!r}'[:80]
+                    except XMLResourceForbidden: outc = 'forbidden'
+                    except XMLSchemaException as e: outc = 'libexc:' + type(e).__name__
+                    except Exception as e: outc = 'OTHER:' + type(e).__name__ + ': ' + str(e)[:60]
+                    finally:
+                        if fobj is not None: fobj.close()
+                    if outc != 'forbidden' or _events:
+                        rf.append(dict(case=dict(reopen=True, payload=pname, source=kind, use=use), observed=dict(outcome=outc, secret_opened=bool(_events)), required='refused with the forbidden-resource error at the second reading too'))
+        out.append(result('C13.lazy_reopen_is_defused', '3 payloads written behind a lazy resource after its creation from a harmless document x (file object, path) x (iter, iter_depth, iterfind, validation), defuse=always', nr, rf, exhaustive=True))
         from xmlschema.exceptions import XMLResourceOSError
         from xml.etree import ElementTree as PET
         bigs = {'comment-70k': '<?xml version="1.0"?><!--' + 'c' * 70000 + '--><r>ok</r>',
@@ -196,6 +222,8 @@ def run(tier, seed, open_findings):
 
 
 def replay(check_name, case):
+    if case.get('reopen'):
+        out = run('quick', 0, {'C13-nonseekable-large-prolog': True}); mine = [f for b_ in out for f in b_['failures'] if f['case'] == case]; return dict(ok=not mine, observed=mine[:1], required='refused at the second reading too')
     if 'prolog_bytes' in case and 'doc' not in case:
         import xmlschema
         big = '<?xml version="1.0"?><!--' + 'c' * case['prolog_bytes'] + '--><r>ok</r>'
